@@ -20,10 +20,10 @@ package estimator
 
 //@ func estimatedUsedByResource [C08]
 //@   ensures #fn: result == estOf(val(requests, resourceName), val(limits, resourceName), resourceName, scalingFactor)
-// the same, case by case
+// consequences kept linear for callers: nothing requested -> the default; with a limit the estimate never exceeds it
 //@   ensures #default: pickQ(val(requests, resourceName), val(limits, resourceName)).IsZero() ==> result == dfltEst(resourceName)
-//@   ensures #cpu: !pickQ(val(requests, resourceName), val(limits, resourceName)).IsZero() && resourceName == corev1.ResourceCPU ==> result == capAt(scaled(pickQ(val(requests, resourceName), val(limits, resourceName)).MilliValue(), scalingFactor), val(limits, resourceName).MilliValue())
-//@   ensures #other: !pickQ(val(requests, resourceName), val(limits, resourceName)).IsZero() && resourceName != corev1.ResourceCPU ==> result == capAt(scaled(pickQ(val(requests, resourceName), val(limits, resourceName)).Value(), scalingFactor), val(limits, resourceName).Value())
+//@   ensures #cpu: !pickQ(val(requests, resourceName), val(limits, resourceName)).IsZero() && resourceName == corev1.ResourceCPU && val(limits, resourceName).MilliValue() > 0 ==> result <= val(limits, resourceName).MilliValue()
+//@   ensures #other: !pickQ(val(requests, resourceName), val(limits, resourceName)).IsZero() && resourceName != corev1.ResourceCPU && val(limits, resourceName).Value() > 0 ==> result <= val(limits, resourceName).Value()
 //@   modifies nothing
 
 // the resource a pod of priority class pc consumes when the factor is given for n (batch / mid pods use the extended names)
@@ -58,3 +58,20 @@ package estimator
 //@   loop 1 invariant #map: factors != nil && fresh(factors) && factors != e.scalingFactors && custom(e, pod)
 //@   loop 1 invariant #dom: forall n corev1.ResourceName :: has(factors, n) <==> (g_customFactorHas(pod, n) || ($seen[n] && has(e.scalingFactors, n)))
 //@   loop 1 invariant #val: forall n corev1.ResourceName :: has(factors, n) ==> factors[n] == (g_customFactorHas(pod, n) ? g_customFactor(pod, n) : e.scalingFactors[n])
+
+// Node allocatable used as the denominator of the threshold decision: the node's own allocatable, overlaid - resource by
+// resource - with the raw-allocatable annotation (amplified nodes) when that annotation decodes to a non-empty list. Every
+// resource of node.Status.Allocatable keeps an entry (so its threshold stays enforced); the node object is not written.
+//@ spec func rawUsed(node *corev1.Node) bool = !g_rawAllocErr(node.ObjectMeta.Annotations) && (exists m corev1.ResourceName :: g_rawAllocHas(node.ObjectMeta.Annotations, m))
+//@ spec func rawAt(node *corev1.Node, n corev1.ResourceName) bool = rawUsed(node) && g_rawAllocHas(node.ObjectMeta.Annotations, n)
+//@ func (*DefaultEstimator).EstimateNode [C08]
+//@   requires node != nil
+//@   ensures #noerr: result1 == nil
+//@   ensures #keeps: forall n corev1.ResourceName :: has(node.Status.Allocatable, n) ==> has(result0, n)
+//@   ensures #dom: forall n corev1.ResourceName :: has(result0, n) <==> (has(node.Status.Allocatable, n) || rawAt(node, n))
+//@   ensures #val: forall n corev1.ResourceName :: val(result0, n) == (rawAt(node, n) ? g_rawAlloc(node.ObjectMeta.Annotations, n) : val(node.Status.Allocatable, n))
+//@   ensures #same: result0 == node.Status.Allocatable || fresh(result0)
+//@   modifies nothing
+//@   loop 1 invariant #copy: allocatableCopy != nil && fresh(allocatableCopy) && rawUsed(node)
+//@   loop 1 invariant #dom: forall n corev1.ResourceName :: has(allocatableCopy, n) <==> (has(node.Status.Allocatable, n) || ($seen[n] && has(rawAllocatable, n)))
+//@   loop 1 invariant #val: forall n corev1.ResourceName :: val(allocatableCopy, n) == (($seen[n] && has(rawAllocatable, n)) ? val(rawAllocatable, n) : val(node.Status.Allocatable, n))
